@@ -163,6 +163,13 @@ def run(ctx):
                 ctx.spec_fail('%s|int-field-names' % name, '%s on tables whose field names are integers is not the multiset operation' % name,
                               {'op': name, 'a': repr(Ai), 'b': repr(Bi), 'got': repr(rows), 'error': err})
 
+    # ---- operands that are sort views
+    util.view_operand_cases(etl, rng, ctx, [
+        ('complement', 2, lambda a, b: etl.complement(a, b)), ('complement(strict)', 2, lambda a, b: etl.complement(a, b, strict=True)),
+        ('intersection', 2, lambda a, b: etl.intersection(a, b)), ('diff[0]', 2, lambda a, b: etl.diff(a, b)[0]),
+        ('diff[1]', 2, lambda a, b: etl.diff(a, b)[1]), ('recordcomplement', 2, lambda a, b: etl.recordcomplement(a, b)),
+        ('hashcomplement', 2, lambda a, b: etl.hashcomplement(a, b)), ('hashintersection', 2, lambda a, b: etl.hashintersection(a, b)),
+    ], 320 if ctx.thorough() else 80)
 
 def replay(d):
     print('replay case:', d.get('case'))
